@@ -54,7 +54,7 @@ class Variant:
 
 
 def run_groups(chk, pid, groups, key_of, hang_in_scope=True, completion_required=None, with_recon=True,
-               collect_san=False, trace=False, per_result=None):
+               collect_san=False, trace=False, per_result=None, confirm_baseline=True):
     """groups: list of (base_case, [Variant...]); the first variant is the reference.
     key_of(base_case, variant, kind) -> violation key.
     completion_required(variant) -> bool: whether a non-terminating run of this variant is a violation."""
@@ -89,11 +89,49 @@ def run_groups(chk, pid, groups, key_of, hang_in_scope=True, completion_required
     bygroup = {}
     for r in results:
         bygroup.setdefault(r[0], []).append(r)
+    # A difference is attributed to the variant only if the reference itself is reproducible: re-run the reference of
+    # every group that shows a difference (schedule-dependent output is C04's subject, not this property's).
+    unstable = set()
+    if confirm_baseline:
+        todo = []
+        for gi in sorted(bygroup):
+            rs = sorted(bygroup[gi], key=lambda r: r[1])
+            if rs[0][5] is not None and any(r[5] is not None and r[5] != rs[0][5] for r in rs[1:]):
+                todo.append(gi)
+
+        def again(gi):
+            """re-run the reference and every differing variant 3 more times under perturbed schedules"""
+            rs = sorted(bygroup[gi], key=lambda r: r[1])
+            base, variants = groups[gi]
+            stable = True
+            idxs = [0] + [r[1] for r in rs[1:] if r[5] is not None and r[5] != rs[0][5]][:3]
+            for vi in idxs:
+                v = variants[vi]
+                first = rs[vi][5] if vi < len(rs) else None
+                for rep in range(3):
+                    case = dict(base)
+                    case.update(v.over)
+                    prefix = os.path.join(chk.dir, "g%03d_v%02d_again%d" % (gi, vi, rep))
+                    res = enc.run_case(v.flavour, case, prefix, sched=v.sched or "%d:100:300" % (gi * 7 + rep + 1), env=v.env)
+                    sig = output_sig(res, prefix, with_recon=with_recon) if (res.res and not res.res.get("api_error")
+                                                                              and not res.timed_out) else None
+                    enc.cleanup(prefix)
+                    if sig is not None and sig != first:
+                        stable = False
+            return gi, stable
+        for gi, stable in core.pmap(again, todo):
+            if not stable:
+                unstable.add(gi)
     for gi in sorted(bygroup):
         rs = sorted(bygroup[gi], key=lambda r: r[1])
         base = groups[gi][0]
         ref = rs[0]
         ref_sig = ref[5]
+        if gi in unstable:
+            chk.count(len(rs))
+            chk.inconclusive_case("reference run of this configuration is not reproducible (schedule-dependent output, "
+                                  "C04's subject): differences cannot be attributed to the variants", base)
+            continue
         group_ok = True
         nvar = 0
         for (g, vi, case, v, res, sig, prefix, extra) in rs:
